@@ -172,9 +172,12 @@ def textclass(tx):
 def finish(out, T, spec):
     if out["violations"]:
         out["status"] = "violated"
-        out["violations"] = out["violations"][:12]
     for v in out["violations"]:
         F.classify(ID, v, text=v.get("text"), base_text=T)
+    # keep every unclassified violation; cap the ones attributed to listed mechanisms
+    unl = [v for v in out["violations"] if not v.get("finding")]
+    lis = [v for v in out["violations"] if v.get("finding")]
+    out["violations"] = unl[:25] + lis[:12]
     out["model_text"] = T if out["violations"] else None
     for v in out["violations"][3:]:
         v.pop("text", None)
